@@ -86,25 +86,30 @@ CHECKS = {
        "subspace polynomials' derivative 1 so the xor loop computes g+g' in the novel basis, the encoder's codeword is one "
        "polynomial of degree < n-m, (f Lambda)'(w_e) = f(w_e) Lambda'(w_e), refinement of the literal loop schedules. Also: "
        "C05_local / C05_linear / C05_scratch, C05_present_untouched, C05_data_only, C05_errLocs_fn / C05_reconSched_fn, "
-       "C05_reconstruct_local/chunking/linear(_all), C05_bf8_prepare / C05_bf16_prepare (word-level mip-map bit field = 'the "
+       "C05_reconstruct_local/chunking/linear(_all), C05_prune_sound / C05_prune_bf8 / C05_prune_bf16 (the bit-field-pruned "
+       "final FFT, modelled loop by loop with the word-level mip-map bit field, returns exactly what the full FFT returns - "
+       "every shape, erasure set and mode), C05_bf8_prepare / C05_bf16_prepare (word-level mip-map bit field = 'the "
        "aligned block holds an erasure'), C05_bf8_cacheID_injective. Tie: Reconstruct* of the real "
        "encoders vs original bytes (L0) and schedule model (L1): every erasure set with |E|<=p+1 for GF8 d+p<=6 and forced "
        "GF16 d+p<=5, seeded larger ones incl. <=p/4 erasures with >=64 KiB sets (bit-field shortcut), n>=8192 GF16 "
        "transforms, sequences of reconstructions on one encoder (locator cache), three encodings of missing; unit-level: "
        "isNeeded after prepare() for every block and level (GF8 and GF16).",
-  note=TB + " The theorem is about the schedule model running the FULL FFT with the model's tables; that the package's "
-       "bit-field-pruned FFT agrees on the outputs read, and that the Go code equals the model, is by correspondence "
-       "(complete table comparison in C17/C01/C04, kernels in C08).",
+  note=TB + " The theorems are about the schedule model (full and pruned FFT) with the model's tables; that the Go code "
+       "equals the model is by correspondence (this check, complete table comparison in C17/C01/C04, kernels in C08).",
   design="4/C05, 10.2"),
  "C06": dict(
   technique="Lean 4 theorems: Verify-iff, single-byte flip detection from non-zero generator entries of MDS matrices",
   text="Proof: C06_iff, C06_flip_parity, C06_flip_data with C06_mds_entry_ne_zero (every MDS generator has no zero entry, so any "
-       "single byte change in any shard at any offset is detected), excluded points p=0 and zero columns stated as theorems. Tie: "
+       "single byte change in any shard at any offset is detected), excluded points p=0 and zero columns stated as theorems. "
+       "Leopard GF8/GF16 (C06_leo8_* / C06_leo16_*, every admissible shape): the re-encode-and-compare Verify of the model "
+       "accepts every encoded set (C06_leo_valid, C06_leo_iff), rejects every single-symbol change in any parity shard "
+       "(C06_leo_flip_parity) and in any data shard - every parity symbol at that position changes, because every entry of "
+       "the MDS generator is non-zero (C06_leo_flip_data_every_parity) - and any corruption confined to <= p data shards "
+       "(C06_leo_detects_upto_p). Tie: "
        "Verify on encoded sets with every (shard, offset) flipped for short shards (all SIMD tails) and boundary/random offsets "
        "of large shards, all 255 deltas; shards hashed before/after.",
-  note=TB + " Leopard GF8/GF16 Verify is exercised here by execution against the schedule model (every shard of shapes incl. "
-       "p > d, sizes straddling the 32 KiB chunk); the theorems are about an MDS generator, which for Leopard is the "
-       "per-configuration certificate of C01. Stream Verify is exercised in C14.",
+  note=TB + " Leopard GF8/GF16 Verify of the package is tied to the model by execution (every shard of shapes incl. "
+       "p > d, sizes straddling the 32 KiB chunk, concurrent callers). Stream Verify is exercised in C14.",
   design="4/C06"),
  "C07": dict(
   technique="Lean 4 theorems: the range splitting is a partition for all option values; four builds x option matrix x GOMAXPROCS vs one L0 answer",
@@ -123,8 +128,14 @@ CHECKS = {
        "nogen tag does not compile on amd64 at the pinned commit.",
   design="4/C07"),
  "C08": dict(
-  technique="Lean 4 kernel evaluation of the per-lane recipes on regenerated tables + lane-exhaustive execution of every assembly kernel",
-  text="Proof: C08_nibble (PSHUFB recipe low[c][x&15]^high[c][x>>4] = c*x) and C08_affine (GF2P8AFFINEQB with the regenerated bit "
+  technique="Lean 4 reflective checker with soundness theorem for the text of all generated amd64 kernels (re-parsed every run) + kernel evaluation of the per-lane recipes + lane-exhaustive execution of every assembly kernel",
+  text="Proof: C08_asm_sound - the text of every generated kernel (600 in galois_gen_amd64.s, 400 in the nopshufb file; parsed "
+       "from /repo on every run) is fed to a checker that executes it symbolically (pointers as region+offset, vector registers "
+       "as lane-uniform byte expressions, xor compared as a multiset with no x^x cancellation) and that is PROVED sound against "
+       "a byte-level semantics of the 21 instructions used: an accepted kernel, for every coefficient matrix, inputs, old "
+       "outputs, start and n meeting the calling contract (C08_asm_contract_sat: satisfiable), terminates without any "
+       "out-of-bounds access and leaves in each output on [start,start+count) exactly the GF(2^8) matrix product (xor-ed onto "
+       "the old bytes for the Xor variants), every other byte of every region unchanged. C08_nibble (PSHUFB recipe low[c][x&15]^high[c][x>>4] = c*x) and C08_affine (GF2P8AFFINEQB with the regenerated bit "
        "matrix = c*x) for all 65,536 pairs, C08_count, slot layout; C08_switch_table: the six switch functions regenerated from "
        "galois_gen_switch_amd64.go have exactly the 600 distinct cases, each calling the kernel named after its own shape and "
        "returning the granularity the model assumes. Execution tie (this is where the assembly enters): all 600 "
@@ -132,8 +143,9 @@ CHECKS = {
        "random matrices/lengths/start offsets/misaligned buffers with 128-byte guard zones; returned count, untouched bytes outside "
        "[start,start+n), unchanged inputs; hand-written multiply/xor kernels under every instruction-set switch for all 256 "
        "coefficients; Leopard GF8/GF16 butterfly/multiply kernels; the nopshufb kernel set. Expected bytes from a first-principles product.",
-  note=TB + " PARTIAL: the assembly is tied by execution, not proved - complete over (coefficient, byte, lane) per slot, sound "
-       "if kernels are data-oblivious and lane-uniform (an assumption). Only this CPU's instruction sets (SSE2..AVX512, GFNI) run.",
+  note=TB + " Trusted for the kernel theorem: the instruction semantics RSV.Model.Asm.stepInstr and the text parser; both are "
+       "cross-checked by the lane-exhaustive execution on this CPU (SSE2..AVX512, GFNI). PARTIAL: the hand-written "
+       "multiply/xor kernels and the 48 Leopard butterfly/multiply kernels are tied by execution only.",
   design="4/C08"),
  "C09": dict(
   technique="Lean 4 theorems on write-set classes and AllocAligned arithmetic + sentinel-arena diff against the model's write set",
@@ -237,8 +249,12 @@ CHECKS = {
        "For GF16 the model's initLUTs is characterised STRUCTURALLY for every entry (C17gf16_log/exp/mulLog: loop invariants of "
        "the LFSR, Cantor-doubling and inversion loops; x is primitive modulo 0x1002D by five kernel-evaluated powers; the 16x16 "
        "Cantor basis is inverted explicitly): log is the discrete logarithm of the Cantor image, exp its inverse, the table "
-       "product is pmul 16 0x1002D under the Cantor map; GF65536 is proved a Field (C17gf16_toGF: ring isomorphism).",
-  note=TB + " Leopard tables are tied to the running package by executed comparison with the model (complete for GF8 and for GF16 log/exp/skew/walsh; "
+       "product is pmul 16 0x1002D under the Cantor map; GF65536 is proved a Field (C17gf16_toGF: ring isomorphism); the "
+       "per-multiplier lookup tables (C17gf16_mul16LUT, C17gf16_mul256LUT, C17gf16_nibble_compose: Lo/Hi byte tables and the "
+       "4x16 SIMD nibble tables compose to the direct product for every multiplier and operand) and the skew table "
+       "(skewOK16: logarithms of the LCH twiddle factors) and the Walsh table (errLocs_ok16) are characterised "
+       "structurally as well.",
+  note=TB + " Leopard tables of the running package are tied to the model by executed comparison (complete for GF8 and for GF16 log/exp/skew/walsh; "
        "sampled log_m for the 33M-entry GF16 product tables); GF2P8AFFINEQB semantics as in the Intel SDM.",
   design="4/C17"),
 }
